@@ -20,6 +20,8 @@ type sprofile struct {
 	storeEach bool
 	pPatch    float64
 	pNoSnap   float64
+	pHold     float64
+	lite      bool
 	dts       []string
 }
 
@@ -29,6 +31,7 @@ var sprofiles = map[string]sprofile{
 	"fault":  {name: "fault", steps: 30, maxCli: 3, maxKeys: 1, cols: 1, pCall: 0.45, pSync: 0.5, pNewDt: 0.05, pFault: 0.45, storeEach: true, dts: []string{"counter", "list", "map", "document"}},
 	"mut":    {name: "mut", steps: 24, maxCli: 3, maxKeys: 2, cols: 2, pCall: 0.35, pSync: 0.55, pNewDt: 0.1, pMut: 0.5, storeEach: true, dts: []string{"counter", "list", "map"}},
 	"rest":   {name: "rest", steps: 22, maxCli: 3, maxKeys: 1, cols: 1, pCall: 0.35, pSync: 0.4, pNewDt: 0.05, pPatch: 0.2, pNoSnap: 0.3, storeEach: true, dts: []string{"document"}},
+	"snap11": {name: "snap11", steps: 26, maxCli: 3, maxKeys: 2, cols: 1, pCall: 0.4, pSync: 0.42, pNewDt: 0.06, pPatch: 0.06, pHold: 0.3, storeEach: true, lite: true, dts: []string{"counter", "map", "list", "document"}},
 	"iso":    {name: "iso", steps: 28, maxCli: 4, maxKeys: 2, cols: 3, pCall: 0.4, pSync: 0.45, pNewDt: 0.15, pMut: 0.25, storeEach: true, dts: []string{"counter", "map", "list"}},
 }
 
@@ -43,6 +46,7 @@ type sgen struct {
 	cols  []string
 	ktyp  map[string]string
 	hold  int
+	held  int
 }
 
 func (s *sgen) emit(cmd, obs J, hung bool) bool {
@@ -161,6 +165,8 @@ func (s *sgen) runCase(id int) bool {
 	s.w.svc = true
 	s.w.spostFn = s.w.spost
 	s.w.out = s.out
+	s.w.lite = s.p.lite
+	s.held = 0
 	s.g.w = &s.w.world
 	s.g.twin = map[int]int{}
 	s.ktyp = map[string]string{}
@@ -219,7 +225,10 @@ func (s *sgen) runCase(id int) bool {
 			}
 			fault := ""
 			var mut *mutation
-			if s.p.pNoSnap > 0 && s.r.chance(s.p.pNoSnap) {
+			if s.p.pHold > 0 && s.r.chance(s.p.pHold) {
+				fault = "holdsnap"
+				s.held++
+			} else if s.p.pNoSnap > 0 && s.r.chance(s.p.pNoSnap) {
 				fault = "nosnap"
 			} else if s.r.chance(s.p.pFault) {
 				fault = []string{"dup", "dup1", "drop", "late"}[s.r.intn(4)]
@@ -263,6 +272,15 @@ func (s *sgen) runCase(id int) bool {
 		if hung {
 			return false
 		}
+		if s.p.pHold > 0 && s.held > 0 && (s.r.intn(4) == 0 || st == s.p.steps-1) {
+			if s.emit(s.w.stepRelease()) {
+				return false
+			}
+			s.held = 0
+			if s.emit(s.w.stepSnapCheck()) {
+				return false
+			}
+		}
 		if s.p.storeEach {
 			if s.emit(s.w.stepStore()) {
 				return false
@@ -284,6 +302,14 @@ func (s *sgen) runCase(id int) bool {
 	}
 	if s.emit(s.w.stepStore()) {
 		return false
+	}
+	if s.p.pHold > 0 {
+		if s.emit(s.w.stepRelease()) {
+			return false
+		}
+		if s.emit(s.w.stepSnapCheck()) {
+			return false
+		}
 	}
 	s.out(J{"k": "send", "id": id, "quiescent": true}, J{})
 	return true
